@@ -8,13 +8,16 @@ property's own predicate is evaluated on the real code (no reference model knows
 from __future__ import annotations
 
 from . import defs, impl, refimpl
-from .structprops import has_eof, real_parse, rand_bytes, small_unit_bits, union_dump_incomplete
+from .structprops import has_eof, small_unit_bits, union_dump_incomplete
 
 
-def with_nested(rnd, g: defs.Gen, tree):
-    """the tree with one more named nested structure (or a small array of it) inserted at a random position, so that every
-    tree of this probe family has something to hoist; the child comes from the same generator"""
-    child = ("struct", g.fields(max(0, g.max_depth - 1), dyn=rnd.random() < 0.2, top=False))
+def with_nested(rnd, g: defs.Gen, tree, kind="struct"):
+    """the tree with one more named nested structure / union (or a small array of it) inserted at a random position, so that
+    every tree of this probe family has something to hoist; the child comes from the same generator"""
+    if kind == "union":
+        child = ("union", g.fields(max(0, g.max_depth - 1), dyn=False, top=False, in_union=True))
+    else:
+        child = ("struct", g.fields(max(0, g.max_depth - 1), dyn=rnd.random() < 0.2, top=False))
     ty = child
     if rnd.random() < 0.5:
         ty = ("arr", child, ("fixed", rnd.choice([1, 2, 2, 3])))
@@ -39,43 +42,45 @@ def is_mixed(plan) -> bool:
     return len({a for _, _, a in plan}) > 1
 
 
-def misplaced_aligned(T, base=0) -> bool:
-    """does some structure that was defined with align=True start at an absolute offset (from the top-level value's start)
-    that is unknown or not a multiple of its alignment?  (then the bytes it consumes differ from len(type))"""
+def misplaced_aligned(T, base=0) -> list:
+    """(class, lies inside a union) for the structure classes defined with align=True that start at an absolute offset (from the top-level value's start)
+    which is unknown (behind a dynamic member) or not a multiple of their alignment; there the bytes they consume differ
+    from len(type)"""
     m = impl.dc()
+    S, U = m.types.structure.StructureMetaType, m.types.structure.UnionMetaType
+    out = []
 
-    def agg(t, off):
-        if getattr(t, "__align__", False) and t.alignment and (off is None or off % t.alignment):
-            return True
+    def agg(t, off, under_union):
+        if getattr(t, "__align__", False) and t.alignment and (off is None or off % t.alignment) and (t, under_union) not in out:
+            out.append((t, under_union))
         for f in t.__fields__:
             if f.bits:
                 continue
             fo = None if (off is None or f.offset is None) else off + f.offset
-            if isinstance(t, m.types.structure.UnionMetaType):
+            if isinstance(t, U):
                 fo = off
-            if walk(f.type, fo):
-                return True
-        return False
+            walk(f.type, fo, under_union or isinstance(t, U))
 
-    def walk(t, off):
-        if isinstance(t, m.types.structure.StructureMetaType):
-            return agg(t, off)
-        if hasattr(t, "type") and hasattr(t, "num_entries"):  # array type
+    def walk(t, off, under_union):
+        if isinstance(t, S):
+            agg(t, off, under_union)
+        elif hasattr(t, "type") and hasattr(t, "num_entries"):  # array type
             et = t.type
-            if walk(et, off):
-                return True
-            # later elements: stride len(element) when known
+            walk(et, off, under_union)
             try:
                 n = len(et)
             except TypeError:
                 n = None
             cnt = t.num_entries if isinstance(t.num_entries, int) else None
-            if cnt is None or cnt > 1:
-                return walk(et, None if (off is None or n is None) else off + n)
-            return False
-        return False
+            if cnt is None or cnt > 1:  # later elements: stride len(element) when known
+                walk(et, None if (off is None or n is None) else off + n, under_union)
 
-    return walk(T, base)
+    walk(T, base, False)
+    return out
+
+
+def has_bitfields(t) -> bool:
+    return any(f.bits for f in t.__fields__)
 
 
 def sigs_any_mode(tree, ptr, endian):
@@ -98,3 +103,63 @@ def case_data(sess: impl.Session, **kw):
         d[k] = v.hex() if isinstance(v, (bytes, bytearray)) else v
     d["repro"] = sess.script(["T = cs.T"])
     return d
+
+
+def overshoot(obj) -> bool:
+    """did reading this value consume more bytes for some fixed-size aggregate member (or array of aggregates) than the
+    member's declared size?  Happens when a structure defined with align=True sits at a position that is not a multiple of
+    its alignment and has too little tail padding: its tail is aligned by absolute stream position, past its declared end."""
+    m = impl.dc()
+    S = m.types.structure.StructureMetaType
+
+    def inner_t(t):
+        while not isinstance(t, S) and hasattr(t, "type") and hasattr(t, "num_entries"):
+            t = t.type
+        return t
+
+    def val(v):
+        if isinstance(v, m.Structure):
+            return agg(v)
+        if type(v).__name__ == "UnionProxy":
+            return agg(object.__getattribute__(v, "__target__"))
+        if isinstance(v, list):
+            return any(val(x) for x in v)
+        return False
+
+    def agg(o):
+        sizes = getattr(o, "_sizes", {}) or {}
+        for f in type(o).__fields__:
+            if f.bits:
+                continue
+            if isinstance(inner_t(f.type), S):
+                try:
+                    n = len(f.type)
+                except TypeError:
+                    n = None
+                if n is not None and sizes.get(f._name, 0) > n:
+                    return True
+                if val(getattr(o, f._name, None)):
+                    return True
+        return False
+
+    return val(obj)
+
+
+def mixed_ty_sexp(tree, T, aligned):
+    """model type S-expression of a hoisted (mixed-mode) tree: every struct/union node carries the align flag that governs
+    it (f["eff_align"] as recorded by defs.hoist), field names of anonymous members come from the real class"""
+    from .common import A
+
+    k = tree[0]
+    if k in ("sc", "enum"):
+        return impl.real_ty_sexp(tree, T, aligned)
+    if k == "ptr":
+        return [A("ptr"), mixed_ty_sexp(tree[1], T.type, aligned)]
+    if k == "arr":
+        l = tree[2]
+        ls = {"fixed": lambda: [A("fixed"), l[1]], "expr": lambda: [A("expr"), l[1]], "null": lambda: A("null"), "eof": lambda: A("eof")}[l[0]]()
+        return [A("arr"), mixed_ty_sexp(tree[1], T.type, aligned), ls]
+    fs = []
+    for f, rf in zip(tree[1], T.__fields__):
+        fs.append([A("f"), rf._name, 1 if f["name"] is None else 0, mixed_ty_sexp(f["ty"], rf.type, f.get("eff_align", aligned)), f["bits"] or 0])
+    return [A(k), 1 if aligned else 0, fs]
